@@ -223,20 +223,43 @@ def evaluate(case):
             ev.dev("valid-macro-rule-rejected", error=list(first[1:]))
             return ev
     if fault == "control" and len(jasm_io.dump_yaml(case["factored"])) % 3 == 1:
-        # an undefined reference written beside the invocation of a list-bodied macro (an operand list under the macro key, a further
-        # key of the node): that part of the node never reaches the matcher, the reference must be reported all the same (F43)
+        # A reference written where the invocation of a macro drops it - an operand list under the key of a list-bodied macro, a
+        # further key of the node, the value of a formal parameter the body never uses, a key beside `@strmacro: {times: n}`: that
+        # part of the node never reaches the matcher, so the reference cannot be expanded and has to be reported (F43, F45) -
+        # whether it has no definition, merely begins like a defined name, or is defined.
         ev.tags.append("reference-beside-list-macro-invocation")
-        which = len(str(case["factored"])) % 4
-        inv = [{"@ybeside_": ["@zz_undefined", "%eax"]}, {"@ybeside_": None, "zz": "@zz_undefined"}, {"@ybeside_": {"times": 1, "zz": ["@zz_undefined"]}}, {"@yother_": ["x"], "@ybeside_": ["@zz_undefined"]}][which]
-        lib = [{"name": "@ybeside_", "pattern": [{"$or": ["shl", "shr"]}]}, {"name": "@yother_", "pattern": [{"$or": ["rol", "ror"]}]}]
-        if len(str(case["factored"])) % 8 >= 4:
-            lib.reverse()
+        h = len(str(case["factored"]))
+        kind = ("undefined", "begins-like-defined", "defined")[(h // 7) % 3]
+        ref = {"undefined": "@zz_undefined", "begins-like-defined": "@yother_zz", "defined": "@yother_"}[kind]
+        shapes = [
+            ("operand-list", {"@ybeside_": [ref, "%eax"]}),
+            ("sibling-key", {"@ybeside_": None, "zz": ref}),
+            ("inner-key-with-times", {"@ybeside_": {"times": 1, "zz": [ref]}}),
+            ("beside-other-invocation", {"@yother_": ["x"], "@ybeside_": [ref]}),
+            ("unused-formal-inner", {"@yargs_": {"x_": "%ebx", "y_": ref}}),
+            ("unused-formal-sibling", {"@yargs_": None, "x_": "%ebx", "y_": ref}),
+            ("beside-string-macro-times", {"@ystr_": {"times": 1}, "note": ref}),
+        ]
+        shape, inv = shapes[h % len(shapes)]
+        ev.tags += ["lost-reference=" + kind, "lost-shape=" + shape]
+        lib = [{"name": "@ybeside_", "pattern": [{"$or": ["shl", "shr"]}]}, {"name": "@yother_", "pattern": [{"$or": ["rol", "ror"]}]},
+               {"name": "@yargs_", "args": ["x_", "y_"], "pattern": [{"mov": ["x_", "%eax"]}]}, {"name": "@ystr_", "pattern": "sar"}]
+        order = (h // 3) % 4  # which definition comes first decides which pass walks the node first
+        lib = lib[order:] + lib[:order]
         r2 = jasm_io.compile_rule(jasm_io.make_doc(["mov", inv], macros=lib))
         ev.subcases = (ev.subcases or 0) + 1
         if r2[0] == "ok":
-            ev.dev("unresolved-reference-compiled-silently", fault="reference-beside-list-macro-invocation", invocation=inv, macros=lib, regex=r2[1][:300])
-        elif r2[0] == "exc" and "@zz_undefined" not in r2[2]:
-            ev.dev("error-does-not-name-the-reference", fault="reference-beside-list-macro-invocation", expected="@zz_undefined", error=list(r2[1:]))
+            # (the defined reference counts as expanded if what it stands for is in the regex more often than the invocation alone puts it there)
+            names = [m_["name"] for m_ in lib]
+            invoked = next(k_ for k_ in inv if k_ in ("@ybeside_", "@yargs_", "@ystr_"))
+            # ... or if its definition is listed before the invoked macro's: its pass has walked the node and expanded the reference
+            # by the time the invocation replaces the node (what is dropped then is no reference any more)
+            expanded = kind == "defined" and ((shape != "beside-other-invocation" and "rol" in r2[1]) or names.index("@yother_") < names.index(invoked))
+            if not expanded:
+                ev.dev("reference-neither-expanded-nor-reported" if kind != "undefined" else "unresolved-reference-compiled-silently",
+                       fault="reference-beside-list-macro-invocation", reference=ref, shape=shape, invocation=inv, macros=lib, regex=r2[1][:300])
+        elif r2[0] == "exc" and ref not in r2[2]:
+            ev.dev("error-does-not-name-the-reference", fault="reference-beside-list-macro-invocation", expected=ref, shape=shape, error=list(r2[1:]))
     if fault == "control" and len(jasm_io.dump_yaml(case["factored"])) % 3 == 2:
         # every macro file that was supplied is missing / a directory at the moment it is read, the rule has no macros of its own:
         # the references are neither expanded nor may they reach the matcher - the compilation has to fail
